@@ -2,7 +2,8 @@
    in-range exponents.  Statements only; proofs in Quant/Po2Thm.v.
    P2le l a b reads 2^l <= |a|/b. *)
 From Coq Require Import ZArith List Bool.
-From QV Require Import Base.ZQ Base.FL Quant.Po2 Quant.Po2Thm.
+From QV Require Import Base.ZQ Base.FL Quant.Po2 Quant.Po2Thm Link.Po2Link.
+From QVGen Require Import Po2Gen.
 Open Scope Z_scope.
 
 Theorem C03_po2_exponent_in_range : forall c x,
@@ -96,4 +97,32 @@ Example C03_nonvacuous :
   let c := P2 4 None LRnd in
   po2_q c (3, 1) = (1, 2) /\ po2_q c (-3, 10) = (-1, -2) /\ po2_q c (1000, 1) = (1, 3) /\
   po2_q c (1, 1000000) = (1, -4) /\ po2_q (P2 4 None LFloor) (3, 1) = (1, 1).
+Proof. vm_compute. repeat split. Qed.
+
+(* ---- tie to the source (T): the exponent interval "determined by the bit width and max_value" as the constructors of
+   /repo compute it on this run (coq/gen/Po2Gen.v from _need_exponent_sign_bit_check, _get_min_max_exponents,
+   quantized_po2.__init__, quantized_relu_po2.__init__) is the interval every theorem above is stated for ---- *)
+Theorem C03_source_translated : translation_ok = true.
+Proof. exact link_po2_ok. Qed.
+Theorem C03_source_po2_interval : forall bits mv,
+  gen_po2_exponents bits mv false = (po2_min_exp bits mv, po2_max_exp bits mv).
+Proof. exact link_po2_exponents. Qed.
+Print Assumptions C03_source_po2_interval.
+Theorem C03_source_relu_po2_interval : forall bits mv,
+  gen_rpo2_exponents bits mv false = (rpo2_min_exp bits mv, rpo2_max_exp bits mv).
+Proof. exact link_rpo2_exponents. Qed.
+Print Assumptions C03_source_relu_po2_interval.
+(* quadratic_approximation keeps the minimum and lowers the maximum to the largest even exponent of the interval *)
+Theorem C03_source_quadratic_interval : forall bits mv,
+  let plain := gen_po2_exponents bits mv false in let quad := gen_po2_exponents bits mv true in
+  fst quad = fst plain /\ snd quad mod 2 = 0 /\ snd plain - 1 <= snd quad <= snd plain.
+Proof. exact link_quadratic. Qed.
+Print Assumptions C03_source_quadratic_interval.
+Theorem C03_source_quadratic_interval_relu : forall bits mv,
+  let plain := gen_rpo2_exponents bits mv false in let quad := gen_rpo2_exponents bits mv true in
+  fst quad = fst plain /\ snd quad mod 2 = 0 /\ snd plain - 1 <= snd quad <= snd plain.
+Proof. exact link_quadratic_relu. Qed.
+Print Assumptions C03_source_quadratic_interval_relu.
+Example C03_source_nonvacuous : gen_po2_exponents 4 None false = (-4, 3) /\ gen_po2_exponents 2 (Some (2, 1)) false = (-1, 0) /\
+  gen_rpo2_exponents 4 (Some (1, 1)) false = (-16, 15) /\ gen_po2_exponents 4 None true = (-4, 2).
 Proof. vm_compute. repeat split. Qed.
